@@ -304,6 +304,16 @@ INT32	of_linear_binary_code_backward_substitution    (of_linear_binary_code_cb_t
 			ASSERT(variable_tab[i] == NULL);
 			variable_tab[i] = constant_tab[i];
 			constant_tab[i] = NULL;
+			if (variable_tab[i] == NULL)
+			{
+				/* a NULL constant term stands for the all-zero symbol (an equation in which no
+				 * known symbol has been injected): start from an explicit zero symbol */
+				if ((variable_tab[i] = of_calloc (1, ofcb->encoding_symbol_length)) == NULL)
+				{
+					OF_EXIT_FUNCTION
+					return 0;
+				}
+			}
 			/* determine the list of symbols to add to compute the decoded source symbol */
 			ofcb->nb_tmp_symbols = 0;
 			for (j = i + 1; j < n; j++)
